@@ -35,7 +35,8 @@ VOCAB = [b"a", b"b", b"ab", b"abc", b"abbbc", b"foo", b"bar", b"baz", b"foobaz",
 
 
 def hay(rng, maxlen=200):
-    n = rng.choice([0, 1, 3, 8, 20, 40, 70, 120, maxlen])
+    # a few values beyond any plausible size threshold of a shortcut (256 bytes and more)
+    n = rng.choice([0, 1, 3, 8, 20, 40, 70, 120, maxlen, maxlen, 256, 300, 520])
     out = bytearray()
     while len(out) < n:
         out += rng.choice(VOCAB)
